@@ -1177,6 +1177,7 @@ fn validate_archive(path: &str, check_checksums: bool, threads: Option<usize>) -
             files.len() - errors,
             format_bytes(total_size)
         );
+        anyhow::bail!("Archive validation failed: {errors} file(s) could not be read");
     }
 
     Ok(())
